@@ -29,3 +29,8 @@ claim("C09",
       "Decides that the single-binding look-up and the insertion share one critical section of the lock held at every insertion site (and that a look-up exists), that RemoveBinding keeps an entry iff not (client address and server feature both equal) and the per-entity removal iff not (peer and entity both equal) — evaluated over all assignments of the comparison atoms —, and that every grant condition dominates the insertion. Necessary conditions of the registry property; interleavings beyond the check/insert split and registry contents over histories are not decided.",
       "Trusted: go/ssa, go/types; reflect.DeepEqual and the address getters are uninterpreted.",
       "DESIGN.md §4 C09")
+claim("C03",
+      "constant propagation of the remoteWrite flag + call-graph route rule + path-sensitive gate/effect enumeration + provenance of gate arguments",
+      "Decides that remoteWrite=true has a single origin reachable only through HandleMessage/ApproveOrDenyWrite, that for classifier write every effect (store, notification, publication, acknowledgement, approval callback) is preceded on every path by the pass edges of the three authorisation gates read at processing time, that the gates work on the addressed local feature, the looked-up source feature and the command's own function, and that every denied path sends exactly one error result and nothing else. Necessary conditions of the authorisation property; registry value semantics and histories are not decided.",
+      "Trusted: go/ssa and call resolution; loops unrolled at most once; the datagram abstraction; HasLocalFeatureRemoteBinding is checked separately (C09-R6).",
+      "DESIGN.md §4 C03")
